@@ -15,6 +15,7 @@ import Dtaiverif.Model.KMeans
 import Dtaiverif.Model.NW
 import Dtaiverif.Model.Affinity
 import Dtaiverif.Model.Similarity
+import Dtaiverif.Model.Views
 
 open Lean
 
@@ -424,12 +425,27 @@ def opSimilarity (j : Json) : Except String Json := do
       return fin (match base with | some b => sqExponentialBase b r | none => sqExponential r) r 0.0
     | _ => throw "unknown method"
 
+/-- op "view": contiguity flags of a 1-D / 2-D view (strides in elements) and whether the guard
+`if not c_contiguous: copy` keeps the caller's buffer -/
+def opView (j : Json) : Except String Json := do
+  let n ← getNat j "n"
+  let s0 := getIntD j "s0" 1
+  match getOptNat j "d" with
+  | some d =>
+    let v : View2 := { base := 0, n := n, d := d, s0 := s0, s1 := getIntD j "s1" 1 }
+    return Json.mkObj [("c", Json.bool v.cContig), ("f", Json.bool v.fContig),
+      ("keeps", Json.bool (v.flag .c))]
+  | none =>
+    let v : View1 := { base := 0, n := n, stride := s0 }
+    return Json.mkObj [("c", Json.bool (v.flag .c)), ("f", Json.bool (v.flag .f)), ("keeps", Json.bool (v.flag .c))]
+
 def dispatch (j : Json) : Except String Json := do
   let op ← (j.getObjVal? "op") >>= (·.getStr?)
   let res ← match op with
     | "dtw" => opDtw j
     | "knn" => opKnn j
     | "hier" => opHier j
+    | "view" => opView j
     | "similarity" => opSimilarity j
     | "affinity" => opAffinity j
     | "lc" => opLc j
